@@ -167,6 +167,7 @@ TOT_ALPHA = S("hash", "star", "us", "bt", "tilde", "pipe", "dash", "gt", "lb", "
               "lt", "num", "box", "colon", "sp", "tab", "nl", "a", "e", "nul", "ff", "eq", "fnref", "fndef", "dd", "fence")
 TOT_CORE = S("hash", "star", "us", "bt", "tilde", "pipe", "dash", "gt", "lb", "rb", "lp", "bang", "dollar", "bs", "lt", "num",
              "box", "colon", "sp", "nl", "a", "dd")
+TOT_CORE16 = S("hash", "star", "us", "bt", "tilde", "pipe", "dash", "gt", "lb", "rb", "lp", "bang", "dollar", "sp", "nl", "a")
 TOT_CORE8 = S("star", "us", "bt", "lb", "rb", "dollar", "sp", "nl", "a")
 DEEP = S("gt", "li", "star", "us", "lb", "bt", "lp", "bang", "dollar", "tilde", "num", "qq", "frac", "sqrt", "bs", "lt", "indent", "tab")
 
@@ -248,9 +249,10 @@ def tiers(ctx):
                  OVWarms=vlib.Raw("{FALSE, TRUE}"))
     tot = [
         # (name, alphabet, length, masks)
-        ("tot_full", TOT_ALPHA, 2 if q else 3, S(DEFAULT, 0) if q else S(DEFAULT, 0, 255, 128 + 42)),
-        ("tot_core", TOT_CORE8 if q else TOT_CORE, 4, S(DEFAULT)),
-        ("tot_opts", TOT_ALPHA, 1 if q else 2, allmasks),
+        ("tot_full", TOT_ALPHA, 2 if q else 3, S(DEFAULT, 0)),
+        ("tot_core", TOT_CORE8 if q else TOT_CORE16, 4, S(DEFAULT)),
+        ("tot_opts", TOT_ALPHA, 1, allmasks),
+        ("tot_pairs", TOT_CORE16 if q else TOT_ALPHA, 2, frozenset(range(0, 256, 37)) | S(255) if q else frozenset(range(0, 256, 9)) | S(255)),
     ]
     deep = dict(DeepToks=DEEP, DeepNs=S(200, 3000) if q else S(200, 3000, 20000), MaskSet=S(DEFAULT) if q else S(DEFAULT, 0))
     return mc, layers, simc, sim, tot, deep, mc_small
@@ -358,7 +360,7 @@ def pipeline(ctx, replay_case=None):
     for name, alpha, n, masks in tot:
         jobs.append(dict(tag=name, cfg=cfg_of(ctx, "gen_%s.cfg" % name, layer(Mode="tot", TotToks=alpha, TotLen=n, MaskSet=masks), ["Emit"]), timeout=1500))
     jobs.append(dict(tag="tot_sim", cfg=cfg_of(ctx, "gen_totsim.cfg", layer(Mode="tot", TotToks=TOT_ALPHA, TotLen=8 if q else 14, MaskSet=S(DEFAULT, 0)), ["Emit"]),
-                     mode="sim", num=20 if q else 1500, depth=9 if q else 15, limit=600 if q else 40000, timeout=600))
+                     mode="sim", num=20 if q else 600, depth=9 if q else 15, limit=600 if q else 15000, timeout=600))
     jobs.append(dict(tag="deep", cfg=cfg_of(ctx, "gen_deep.cfg", layer(Mode="deep", **deep), ["Emit"]), timeout=300))
     by_tag, mcout = gen_par(ctx, jobs, also)
     for out in mcout:
